@@ -57,7 +57,7 @@ def run(ctx):
             # a rejected request ends in abort() (SIGABRT): no exit handlers run, no destructors, nothing is flushed on behalf of the caller
             if d is None and not hist and line.split()[1:3] != ['ABORT', '6']:
                 ctx.report('selector-rejects-without-abort', 'lambda=%d is rejected, but not by aborting: the process %s (the documented behaviour is abort(): SIGABRT, no exit handlers)' % (
-                           lam, 'exited normally with status ' + line.split()[2] if line.split()[1] == 'EXIT' else 'ended with ' + ' '.join(line.split()[1:3])), {'lambda': lam, 'observed': line})
+                           lam, ('threw a C++ exception that a catch-all handler above the call swallowed' if line.split()[2] == '77' else 'exited normally with status ' + line.split()[2]) if line.split()[1] == 'EXIT' else 'ended with ' + ' '.join(line.split()[1:3])), {'lambda': lam, 'observed': line})
             if d is not None: ctx.report('selector-accepts', 'lambda=%d is accepted (should abort)' % lam, {'lambda': lam, 'observed': line})
             continue
         if d is None:
